@@ -347,7 +347,8 @@ func genC11Sim(t *rapid.T) streamsCase {
 	st.S.Prog = []sOp{{K: rapid.SampledFrom([]string{"readn", "readn", "readall"}).Draw(t, "rk"), N: need}}
 	// the first flush makes the stream known to the server; then the releasing event
 	st.C.Prog = []sOp{{K: "flush", N: 1}}
-	switch rapid.SampledFrom([]string{"data", "data", "peer-close", "local-close", "client-session-close", "server-session-close"}).Draw(t, "release") {
+	release := rapid.SampledFrom([]string{"data", "data", "peer-close", "local-close", "client-session-close", "server-session-close"}).Draw(t, "release")
+	switch release {
 	case "data":
 		left := need - 1
 		for left > 0 {
@@ -366,6 +367,13 @@ func genC11Sim(t *rapid.T) streamsCase {
 		st.C.Prog = append(st.C.Prog, sOp{K: "quiet"}, sOp{K: "sclose"})
 	case "server-session-close":
 		st.S.Prog2 = []sOp{{K: "quiet"}, {K: "sclose"}}
+	}
+	if rapid.IntRange(0, 3).Draw(t, "cbreader") == 0 {
+		// the waiting reader is an OnData invocation that asked for more bytes than have arrived (a message spanning flushes)
+		st.S.Prog = nil
+		st.S.CB = []cbPolicy{{Take: 0, More: need}}
+		// (released by data: the wait is for bytes that do come; otherwise for bytes that never come)
+		st.S.WaitBeyond = release != "data"
 	}
 	c.Streams = []sStream{st}
 	c.Sched = genSchedPlanHot(t, 8, 1500, 3, 150)
